@@ -2025,7 +2025,7 @@ bn_assign_digit(bn_p bn, bn_digit_t digit) {
 	BN_POINTER_CHK_EINVAL(bn);
 	if (0 == bn->count)
 		return (EOVERFLOW);
-	bn->digits = 1;
+	bn->digits = ((0 != digit) ? 1 : 0); /* Keep zero normalised: bn_is_zero(), bn_cmp(). */
 	bn->num[0] = digit;
 	return (0);
 }
